@@ -92,6 +92,10 @@ package raft
 //@ iface StateStorage.State() (term, vote, err)
 //@   ensures err == nil ==> term == persTerm && vote == persVote
 
+//@ iface Transport.SendRequestVote(address, request) (response, err)
+//@ iface Transport.SendAppendEntries(address, request) (response, err)
+//@ iface Transport.SendInstallSnapshot(address, request) (response, err)
+
 //@ iface SnapshotFile.Close() (err)
 //@   ensures ioOK ==> err == nil
 //@ iface SnapshotFile.Discard() (err)
@@ -331,6 +335,8 @@ package raft
 //@ func operationManager.notifyLostLeaderShip
 //@   flags inline
 
+//@ spec singleMember(r) = len(r.configuration.Members) == 1 && r.configuration.IsVoter[r.id]
+
 //@ func Raft.election
 //@   flags inline lockheld
 //@   requires r.configuration != nil && r.followers != nil && r.stateStorage != nil && r.operationManager != nil && r.log != nil && r.logger != nil
@@ -340,10 +346,10 @@ package raft
 //@   ensures [voter-only] !old(r.configuration.IsVoter[r.id]) ==> r.state == old(r.state) && r.currentTerm == old(r.currentTerm) && r.votedFor == old(r.votedFor)
 //@   ensures [quiet] now - old(r.lastContact) < r.options.electionTimeout ==> r.state == old(r.state) && r.currentTerm == old(r.currentTerm) && r.votedFor == old(r.votedFor)
 //@   ensures [leader-keeps] old(r.state) == Leader || old(r.state) == Shutdown ==> r.state == old(r.state) && r.currentTerm == old(r.currentTerm)
-//@   ensures [term-bump] r.currentTerm == old(r.currentTerm) || (r.currentTerm == old(r.currentTerm) + 1 && old(r.state) == Candidate && r.votedFor == r.id)
+//@   ensures [term-bump] r.currentTerm != old(r.currentTerm) ==> r.currentTerm == old(r.currentTerm) + 1 && r.votedFor == r.id && (old(r.state) == Candidate || old(singleMember(r)))
 //@   ensures [I7] persTerm == r.currentTerm && persVote == r.votedFor
 //@   ensures [G2] r.currentTerm == old(r.currentTerm) && old(r.votedFor) != "" ==> r.votedFor == old(r.votedFor)
-//@   ensures [leader-entry] r.state == Leader && old(r.state) != Leader ==> old(r.state) == Candidate && r.votedFor == r.id && r.currentTerm == old(r.currentTerm) + 1
+//@   ensures [leader-entry] r.state == Leader && old(r.state) != Leader ==> old(singleMember(r)) && r.votedFor == r.id && r.currentTerm == old(r.currentTerm) + 1
 
 //@ func Raft.sendRequestVoteToPeers
 //@   flags inline lockheld
